@@ -471,301 +471,208 @@ Proof.
       apply (idx_ok_in _ _ _ Hok) in H. destruct H. congruence.
 Qed.
 
-(* ---------- the group against the spec state, over whole histories ---------- *)
-Lemma ntype_eqb_eq : forall a b, ntype_eqb a b = true <-> a = b.
+(* ====================================================================================================== *)
+(* min policies: the standing choice                                                                      *)
+(* ====================================================================================================== *)
+Lemma scan_min_spec : forall excl es d0 l0,
+  (forall x l, In (x, l) es -> onat_eqb (Some x) excl = false ->
+               fst (scan_min excl es (d0, l0)) <> None /\ snd (scan_min excl es (d0, l0)) <= l) /\
+  (d0 <> None -> fst (scan_min excl es (d0, l0)) <> None /\ snd (scan_min excl es (d0, l0)) <= l0) /\
+  ((fst (scan_min excl es (d0, l0)) = d0 /\ snd (scan_min excl es (d0, l0)) = l0) \/
+   exists m, fst (scan_min excl es (d0, l0)) = Some m /\ In (m, snd (scan_min excl es (d0, l0))) es /\
+             onat_eqb (Some m) excl = false).
 Proof.
-  intros [d1 v1] [d2 v2]. unfold ntype_eqb. cbn. split.
-  - destruct d1, d2, v1, v2; cbn; intros; congruence.
-  - intros H. inversion H. destruct d2, v2; reflexivity.
+  intros excl es. induction es as [|[d l] es IH]; intros d0 l0.
+  - cbn. split; [intros x l []|]. split; [intros H; split; [exact H|lia]|]. left. auto.
+  - cbn [scan_min]. destruct (onat_eqb (Some d) excl) eqn:Ex.
+    + destruct (IH d0 l0) as (I1 & I2 & I3). split; [|split; [exact I2|]].
+      * intros x l' [He|Hin] Hx; [inversion He; subst; congruence|]. eapply I1; eauto.
+      * destruct I3 as [I3|(m & Hm & Hin & Hx)]; [left; exact I3|right; exists m; repeat split; auto; right; exact Hin].
+    + cbn [fst snd]. destruct (negb (is_some d0) || (l <? l0)) eqn:Ec.
+      * destruct (IH (Some d) l) as (I1 & I2 & I3).
+        assert (Hsd : Some d <> None) by discriminate. specialize (I2 Hsd).
+        split; [|split].
+        { intros x l' [He|Hin] Hx; [inversion He; subst; exact I2|]. eapply I1; eauto. }
+        { intros Hd0. destruct d0 as [d0'|]; [|congruence]. cbn in Ec. apply Z.ltb_lt in Ec.
+          destruct I2 as [Ha Hb]. split; [exact Ha|lia]. }
+        { right. destruct I3 as [[Ha Hb]|(m & Hm & Hin & Hx)].
+          - exists d. rewrite Hb. repeat split; auto. left. reflexivity.
+          - exists m. repeat split; auto. right. exact Hin. }
+      * apply Bool.orb_false_iff in Ec. destruct Ec as [Ec1 Ec2]. apply Z.ltb_ge in Ec2.
+        destruct d0 as [d0'|]; [|discriminate].
+        destruct (IH (Some d0') l0) as (I1 & I2 & I3).
+        assert (Hsd : Some d0' <> None) by discriminate. specialize (I2 Hsd).
+        split; [|split; [intros _; exact I2|]].
+        { intros x l' [He|Hin] Hx; [inversion He; subst; destruct I2; split; [auto|lia]|]. eapply I1; eauto. }
+        { destruct I3 as [I3|(m & Hm & Hin & Hx)]; [left; exact I3|right; exists m; repeat split; auto; right; exact Hin]. }
 Qed.
 
-Lemma spol_eqb_eq : forall a b, spol_eqb a b = true <-> a = b.
+Lemma view_unique : forall (v : view) d m1 m2, NoDup (map fst v) -> In (d, m1) v -> In (d, m2) v -> m1 = m2.
 Proof.
-  intros a b. split.
-  - destruct a as [|[]], b as [|[]]; cbn; intros; congruence.
-  - intros ->. destruct b as [|[]]; reflexivity.
+  induction v as [|[d' m'] v IH]; intros d m1 m2 Hnd H1 H2; [destruct H1|].
+  cbn in Hnd. inversion Hnd; subst.
+  destruct H1 as [E1|H1], H2 as [E2|H2].
+  - congruence.
+  - inversion E1; subst. exfalso. apply H3. apply in_map_iff. exists (d, m2). auto.
+  - inversion E2; subst. exfalso. apply H3. apply in_map_iff. exists (d, m1). auto.
+  - eapply IH; eauto.
 Qed.
 
-Lemma new_set_ok : forall p, set_ok (new_set p) [].
+Lemma sim_measured_entry : forall es v x la, sim true es v -> In (x, Some la) v -> In (x, la) es.
 Proof.
-  intros p. split.
-  - intros d i. cbn. split; [discriminate|]. intros [l Hl]. destruct i; discriminate.
-  - split; [constructor|]. split; [cbn; tauto|]. intros _ d l [].
+  intros es v x la (Hnd & Hmem & Hlat) Hin.
+  assert (Hx : In x (map fst es)) by (apply Hmem; apply in_map_iff; exists (x, Some la); auto).
+  apply in_map_iff in Hx. destruct Hx as [[x' l] [Hf Hl]]. cbn in Hf. subst x'.
+  destruct (Hlat eq_refl _ _ Hl) as [m [Hm He]].
+  assert (m = Some la) by (eapply view_unique; eauto). subst. exact Hl.
 Qed.
 
-Lemma fold_notify_ok : forall c st t p flag ds a cb v,
-  set_ok a v -> a_policy a = p ->
-  set_ok (fst (fold_notify c st t flag ds (a, cb))) (fold_left (fun v d => view_notify c p st t d (flag d) v) ds v) /\
-  a_policy (fst (fold_notify c st t flag ds (a, cb))) = p.
+Lemma sim_entry_view : forall es v x l, sim true es v -> In (x, l) es -> exists m, In (x, m) v /\ l = eff m.
+Proof. intros es v x l (_ & _ & Hlat) Hin. apply Hlat; auto. Qed.
+
+Lemma sim_nil : forall mp es v, sim mp es v -> es = [] -> v = [].
 Proof.
-  intros c st t p flag ds. unfold fold_notify. induction ds as [|d ds IH]; intros a cb v Hok Hp.
-  - cbn. auto.
-  - cbn [fold_left fst snd].
-    destruct (notify c st t a d (flag d)) as [a' cb'] eqn:En.
-    apply IH.
-    + subst p. replace a' with (fst (notify c st t a d (flag d))) by (rewrite En; reflexivity).
-      apply notify_set_ok. exact Hok.
-    + replace a' with (fst (notify c st t a d (flag d))) by (rewrite En; reflexivity).
-      destruct (notify_core c st t a d (flag d)) as (_ & _ & H). congruence.
+  intros mp es v (_ & Hmem & _) ->. destruct v as [|[x m] v]; auto.
+  exfalso. apply (Hmem x). left. reflexivity.
 Qed.
 
-Lemma fold_remove_nil : forall c p st t ds,
-  fold_left (fun v d => view_notify c p st t d false v) ds [] = [].
-Proof. intros. induction ds; cbn; auto. Qed.
+Lemma beats_false_ge : forall tol la lr, lr <= la -> beats tol la lr = false.
+Proof. intros. unfold beats. assert ((la <? lr) = false) by (apply Z.ltb_ge; lia). rewrite H0. reflexivity. Qed.
 
-Lemma build_set_ok : forall c st p t,
-  set_ok (fst (build_set c st p t)) (view_build c p st t) /\ a_policy (fst (build_set c st p t)) = p.
+Lemma beats_mono : forall tol la s B, s <= B -> beats tol la B = false -> beats tol la s = false.
 Proof.
-  intros c st p t. unfold build_set, view_build.
-  destruct (fold_notify c st t (fun _ => false) (seq 0 (c_n c)) (new_set p, [])) as [a1 cb1] eqn:E1.
-  pose proof (fold_notify_ok c st t p (fun _ => false) (seq 0 (c_n c)) (new_set p) [] [] (new_set_ok p) eq_refl) as [H1 H2].
-  rewrite E1 in H1, H2. cbn [fst] in H1, H2. rewrite fold_remove_nil in H1.
-  apply fold_notify_ok; auto.
+  intros tol la s B Hs Hb. unfold beats in *. apply Bool.andb_false_iff in Hb. apply Bool.andb_false_iff.
+  destruct Hb as [Hb|Hb]; [apply Z.ltb_ge in Hb; left; apply Z.ltb_ge; lia|apply Z.leb_gt in Hb; right; apply Z.leb_gt; lia].
 Qed.
 
-Lemma nth_error_map' : forall A B (f : A -> B) l i, nth_error (map f l) i = option_map f (nth_error l i).
-Proof. induction l; destruct i; cbn; auto. Qed.
-
-Lemma recompute_ok : forall c st t a v p,
-  set_ok a v -> set_ok (recompute c st t a p) (view_repolicy c p st t v) /\ a_policy (recompute c st t a p) = p.
+Lemma beats_no_switch : forall tol s B, tol_switch tol s B = false -> beats tol s B = false.
 Proof.
-  intros c st t a v p [Hok (Hnd & Hmem & Hlat)]. unfold recompute.
-  assert (Hfst : map fst (view_repolicy c p st t v) = map fst v).
-  { unfold view_repolicy. rewrite map_map. reflexivity. }
-  destruct (is_min_policy p) eqn:Ep; cbn [negb].
-  2:{ split; [|reflexivity]. split; [exact Hok|]. cbn [a_policy a_entries]. rewrite Ep.
-      split; [rewrite Hfst; exact Hnd|]. split; [intros d; rewrite Hfst; apply Hmem|discriminate]. }
-  match goal with |- context [calc_min ?tol ?x] => destruct (calc_min_proj tol x) as (Hi & He & Hp & _) end.
-  unfold set_ok. rewrite Hi, He, Hp. cbn [a_idx a_entries a_policy]. rewrite Ep. split; [|reflexivity].
-  split; [|split; [|split]].
-  - intros d i. rewrite nth_error_map'. rewrite (Hok d i). split.
-    + intros [l Hl]. rewrite Hl. cbn. destruct (snapshot_latency st d t p); eauto.
-    + intros [l Hl]. destruct (nth_error (a_entries a) i) as [[d' l']|] eqn:E; [|discriminate].
-      cbn in Hl. destruct (snapshot_latency st d' t p); inversion Hl; subst; eauto.
-  - rewrite Hfst. exact Hnd.
-  - intros d. rewrite Hfst, <- Hmem, map_map. 
-    assert (Hext : map (fun x : nat * Z => fst match snapshot_latency st (fst x) t p with
-                                                | Some raw => (fst x, raw + c_off c (fst x))
-                                                | None => (fst x, 0) end) (a_entries a) = map fst (a_entries a)).
-    { apply map_ext. intros x. destruct (snapshot_latency st (fst x) t p); reflexivity. }
-    rewrite Hext. tauto.
-  - intros _ d l Hin. apply in_map_iff in Hin. destruct Hin as [[d' l'] [He' Hin]]. cbn [fst] in He'.
-    assert (Hd' : In d' (map fst v)) by (apply Hmem; apply in_map_iff; exists (d', l'); auto).
-    apply in_map_iff in Hd'. destruct Hd' as [[d'' m] [Hf Hv]]. cbn in Hf. subst d''.
-    unfold snapshot_latency in He'.
-    exists (match lat_of p (st_lat st d' t) with Some raw => Some (raw + c_off c d') | None => None end).
-    destruct (lat_of p (st_lat st d' t)) eqn:El; inversion He'; subst; (split; [|reflexivity]);
-      unfold view_repolicy; apply in_map_iff; exists (d, m); cbn [fst]; rewrite El; auto.
+  intros tol s B H. unfold tol_switch, beats in *.
+  destruct (s <? B) eqn:E1; [|reflexivity]. destruct (s + tol <=? B) eqn:E2; [|reflexivity].
+  apply Z.ltb_lt in E1. apply Z.leb_le in E2. exfalso.
+  assert ((s <=? B) = true) by (apply Z.leb_le; lia). assert ((s <=? B - tol) = true) by (apply Z.leb_le; lia).
+  rewrite H0, H1, Bool.orb_true_r in H. discriminate.
 Qed.
 
-Lemma step_ok : forall c g s o, group_ok c g s -> group_ok c (fst (step c g o)) (spec_step c s o).
+Lemma tol_switch_le : forall tol s B, tol_switch tol s B = true -> s <= B.
+Proof. intros tol s B H. unfold tol_switch in H. apply Bool.andb_true_iff in H. destruct H as [H _]. apply Z.leb_le in H. exact H. Qed.
+
+Lemma tol_switch_reason : forall tol s B, tol_switch tol s B = true -> (s + tol <=? B) || ((s <=? B) && (B <? tol)) = true.
 Proof.
-  intros c g s o (Hst & Hpol & Hsets). destruct o as [d t l|d t b|d t b|np].
-  - cbn. unfold group_ok. cbn. rewrite Hst, <- Hpol. repeat split; auto;
-    try (destruct (g_policy g); auto).
-  - cbn. unfold group_ok. cbn. rewrite Hst, <- Hpol. repeat split; auto;
-    try (destruct (g_policy g); auto).
-  - cbn [step spec_step]. rewrite <- Hpol. destruct (g_policy g) as [i|p] eqn:Ep.
-    + rewrite Hsets. cbn [fst]. split; [exact Hst|]. split; [congruence|]. rewrite Ep. exact Hsets.
-    + destruct Hsets as (sets & Hs & Hall). rewrite Hs.
-      destruct (notify c (g_store g) t (sets t) d b) as [a' cb] eqn:En.
-      cbn [fst]. unfold group_ok. cbn [g_store g_policy g_sets ss_store ss_policy ss_views].
-      try rewrite Ep. repeat split; auto.
-      eexists. split; [reflexivity|]. intros t'. cbn beta.
-      destruct (ntype_eqb t' t) eqn:Et.
-      * apply ntype_eqb_eq in Et. subst t'. destruct (Hall t) as [Hp Hok].
-        replace a' with (fst (notify c (g_store g) t (sets t) d b)) by (rewrite En; reflexivity).
-        split.
-        { destruct (notify_core c (g_store g) t (sets t) d b) as (_ & _ & H). congruence. }
-        { rewrite <- Hst, <- Hp. apply notify_set_ok. exact Hok. }
-      * apply Hall.
-  - cbn [step spec_step]. rewrite <- Hpol. destruct (g_policy g) as [i|p] eqn:Ep.
-    + rewrite Hsets. destruct np as [i'|p'].
-      * cbn. unfold group_ok. cbn. auto.
-      * destruct (build_sets c (g_store g) p') as [sets cb] eqn:Eb. cbn [fst].
-        unfold group_ok. cbn [g_store g_policy g_sets ss_store ss_policy ss_views]. repeat split; auto.
-        exists sets. split; auto. intros t. unfold build_sets in Eb. inversion Eb; subst sets.
-        rewrite <- Hst. destruct (build_set_ok c (g_store g) p' t). auto.
-    + destruct Hsets as (sets & Hs & Hall). rewrite Hs. destruct np as [i'|p'].
-      * cbn. unfold group_ok. cbn. auto.
-      * cbn [fst]. unfold group_ok. cbn [g_store g_policy g_sets ss_store ss_policy ss_views]. repeat split; auto.
-        eexists. split; [reflexivity|]. intros t. cbn beta. destruct (Hall t) as [Hp Hok].
-        unfold set_selection_policy. rewrite Hp.
-        destruct (spol_eqb p p') eqn:Epp.
-        { apply spol_eqb_eq in Epp. subst p'. auto. }
-        { rewrite <- Hst. destruct (recompute_ok c (g_store g) t (sets t) (ss_views s t) p' Hok). auto. }
+  intros tol s B H. unfold tol_switch in H. apply Bool.andb_true_iff in H. destruct H as [H1 H2].
+  rewrite H1. apply Bool.orb_true_iff in H2. destruct H2 as [H2|H2].
+  - rewrite H2. cbn. apply Bool.orb_true_r.
+  - apply Z.leb_le in H2. assert ((s + tol <=? B) = true) by (apply Z.leb_le; lia). rewrite H. reflexivity.
 Qed.
 
-Lemma init_ok : forall c p0, group_ok c (init_group c p0) (spec_init c p0).
+(* calcMinLatency re-establishes the invariant from the index/view facts alone *)
+Lemma calc_min_inv : forall tol a v,
+  idx_ok (a_idx a) (a_entries a) -> sim true (a_entries a) v ->
+  (forall b, a_best a = Some b -> In b (map fst (a_entries a)) /\ forall lb, In (b, Some lb) v -> a_best_lat a = lb) ->
+  min_inv tol (calc_min tol a) v.
 Proof.
-  intros c p0. unfold group_ok, init_group, spec_init. cbn. repeat split; auto.
-  destruct p0 as [i|p]; auto. eexists. split; [reflexivity|]. intros t. cbn.
-  destruct (build_set_ok c store0 p t). auto.
+  intros tol a v Hok Hsim Hb.
+  destruct (calc_min_proj tol a) as (_ & He & _ & _).
+  unfold min_inv. rewrite He. clear He.
+  unfold calc_min.
+  destruct (scan_min_spec None (a_entries a) None hour) as (S1 & _ & S3).
+  destruct (scan_min None (a_entries a) (None, hour)) as [md ml] eqn:Es. cbn [fst snd] in S1, S3.
+  assert (Hmin : forall x l, In (x, l) (a_entries a) -> md <> None /\ ml <= l) by (intros; eapply S1; eauto).
+  assert (Hmd : forall m, md = Some m -> In (m, ml) (a_entries a)).
+  { intros m ->. destruct S3 as [[Ha _]|(m' & Hm & Hin & _)]; [discriminate|]. inversion Hm; subst. exact Hin. }
+  (* the state "best := md, lat := ml" satisfies the invariant *)
+  assert (Hnew : forall a0, a_best a0 = md -> a_best_lat a0 = ml -> a_entries a0 = a_entries a ->
+            (forall b, a_best a0 = Some b -> In b (map fst (a_entries a))) /\
+            (a_entries a <> [] -> a_best a0 <> None) /\
+            (forall b lb, a_best a0 = Some b -> In (b, Some lb) v -> a_best_lat a0 = lb) /\
+            (forall b x la, a_best a0 = Some b -> In (x, Some la) v -> beats tol la (a_best_lat a0) = false)).
+  { intros a0 H1 H2 H3. rewrite H1, H2. split; [|split; [|split]].
+    - intros b Hbm. apply in_map_iff. exists (b, ml). split; auto.
+    - intros Hne. destruct (a_entries a) as [|[x l] r] eqn:E; [congruence|]. apply (Hmin x l). left. reflexivity.
+    - intros b lb Hbm Hin. apply Hmd in Hbm. destruct (sim_entry_view _ _ _ _ Hsim Hbm) as [m [Hm Hl]].
+      assert (m = Some lb) by (destruct Hsim as (Hnd & _); eapply view_unique; eauto). subst m. cbn in Hl. exact Hl.
+    - intros b x la _ Hin. apply beats_false_ge. apply (Hmin x la). eapply sim_measured_entry; eauto. }
+  destruct (a_best a) as [b|] eqn:Eb.
+  - destruct md as [m|] eqn:Em.
+    + destruct (tol_switch tol ml (a_best_lat a)) eqn:Et.
+      * apply (Hnew (set_best a (Some m) ml)); reflexivity.
+      * rewrite Eb. destruct (Hb b eq_refl) as [Hb1 Hb3]. split; [|split; [|split]].
+        { intros b' H. inversion H; subst. exact Hb1. }
+        { intros _. discriminate. }
+        { intros b' lb H. inversion H; subst. apply Hb3. }
+        { intros b' x la _ Hin. unfold beats. destruct (la <? a_best_lat a) eqn:E1; [|reflexivity].
+          destruct (la + tol <=? a_best_lat a) eqn:E2; [|reflexivity]. exfalso.
+          apply Z.ltb_lt in E1. apply Z.leb_le in E2.
+          assert (ml <= la) by (apply (Hmin x la); eapply sim_measured_entry; eauto).
+          unfold tol_switch in Et.
+          assert ((ml <=? a_best_lat a) = true) by (apply Z.leb_le; lia).
+          assert ((ml <=? a_best_lat a - tol) = true) by (apply Z.leb_le; lia).
+          rewrite H0, H1, Bool.orb_true_r in Et. discriminate. }
+    + (* no entry at all *)
+      rewrite Eb. destruct (Hb b eq_refl) as [Hb1 Hb3].
+      apply in_map_iff in Hb1. destruct Hb1 as [[b' l] [_ Hin]]. destruct (Hmin _ _ Hin). congruence.
+  - apply (Hnew (set_best a md ml)); reflexivity.
 Qed.
 
-Lemma run_ok : forall c p0 h, group_ok c (run c p0 h) (spec_run c p0 h).
+(* when calcMinLatency moves the choice away from b, the new one passed the tolerance test against b's latency *)
+Lemma calc_min_switch : forall tol a b,
+  a_best a = Some b ->
+  a_best (calc_min tol a) = Some b /\ a_best_lat (calc_min tol a) = a_best_lat a \/
+  exists m, a_best (calc_min tol a) = Some m /\ In (m, a_best_lat (calc_min tol a)) (a_entries a) /\
+            tol_switch tol (a_best_lat (calc_min tol a)) (a_best_lat a) = true.
 Proof.
-  intros c p0 h. unfold run, spec_run.
-  generalize (init_ok c p0). generalize (init_group c p0) (spec_init c p0).
-  induction h as [|o h IH]; intros g s H; cbn; auto.
-  apply IH. apply step_ok. exact H.
+  intros tol a b Hb. unfold calc_min.
+  destruct (scan_min_spec None (a_entries a) None hour) as (_ & _ & S3).
+  destruct (scan_min None (a_entries a) (None, hour)) as [md ml]. cbn [fst snd] in S3. rewrite Hb.
+  destruct md as [m|]; [|left; auto].
+  destruct (tol_switch tol ml (a_best_lat a)) eqn:Et; [|left; auto].
+  right. exists m. cbn. destruct S3 as [[Ha _]|(m' & Hm & Hin & _)]; [discriminate|]. inversion Hm; subst. auto.
 Qed.
 
-(* ---------- selection: random ---------- *)
-Lemma find_app' : forall A (f : A -> bool) l1 l2,
-  find f (l1 ++ l2) = match find f l1 with Some x => Some x | None => find f l2 end.
-Proof. induction l1; intros; cbn; auto. destruct (f a); auto. Qed.
+(* ---------- what NotifyLatencyChange does to the standing choice (min policies) ---------- *)
+Definition nb_kept (a a' : aset) : Prop := a_best a' = a_best a /\ a_best_lat a' = a_best_lat a.
 
-Lemma get_rand_cands : forall a v excl d,
-  set_ok a v -> (In d (get_rand a excl) <-> In d (cands excl v)).
+Ltac nb_norm :=
+  cbn [fst snd andb orb negb is_some onat_eqb a_best a_best_lat a_idx a_entries a_lat a_policy set_best add_alive app] in *.
+
+Lemma notify_best_cases : forall c st t a d alive,
+  is_min_policy (a_policy a) = true ->
+  (alive = true /\ snapshot_latency st d t (a_policy a) = None /\ a_best a <> None /\ nb_kept a (fst (notify c st t a d alive))) \/
+  (alive = true /\ snapshot_latency st d t (a_policy a) = None /\ a_best a = None /\
+     a_best (fst (notify c st t a d alive)) = Some d /\ a_best_lat (fst (notify c st t a d alive)) = a_best_lat a) \/
+  (exists raw, alive = true /\ snapshot_latency st d t (a_policy a) = Some raw /\
+     (a_best a = None \/ tol_switch (c_tol c) (raw + c_off c d) (a_best_lat a) = true) /\
+     a_best (fst (notify c st t a d alive)) = Some d /\ a_best_lat (fst (notify c st t a d alive)) = raw + c_off c d) \/
+  (exists raw, alive = true /\ snapshot_latency st d t (a_policy a) = Some raw /\ a_best a <> None /\ a_best a <> Some d /\
+     tol_switch (c_tol c) (raw + c_off c d) (a_best_lat a) = false /\ nb_kept a (fst (notify c st t a d alive))) \/
+  (exists raw, alive = true /\ snapshot_latency st d t (a_policy a) = Some raw /\ a_best a = Some d /\
+     raw + c_off c d <= a_best_lat a /\
+     a_best (fst (notify c st t a d alive)) = Some d /\ a_best_lat (fst (notify c st t a d alive)) = raw + c_off c d) \/
+  (exists raw X, alive = true /\ snapshot_latency st d t (a_policy a) = Some raw /\ a_best a = Some d /\
+     fst (notify c st t a d alive) = calc_min (c_tol c) X /\ a_best X = Some d /\ a_best_lat X = raw + c_off c d) \/
+  (alive = false /\ (a_best a <> Some d \/ forall i, a_idx a d <> SAt i) /\ nb_kept a (fst (notify c st t a d alive))) \/
+  (exists X, alive = false /\ a_best a = Some d /\ fst (notify c st t a d alive) = calc_min (c_tol c) X /\ a_best X = None).
 Proof.
-  intros a v excl d [_ (_ & Hmem & _)]. unfold get_rand, cands, view_drop. rewrite filter_In, Hmem.
-  destruct excl as [e|]; cbn [onat_eqb].
-  - rewrite view_remove_fst, negb_true_iff, Nat.eqb_neq. tauto.
-  - cbn. tauto.
-Qed.
-
-Lemma nil_iff : forall A (l : list A), l = [] <-> forall x, ~ In x l.
-Proof. intros A l. split; [intros -> x []|]. destruct l; auto. intros H. exfalso. apply (H a). left. reflexivity. Qed.
-
-Lemma select_rand_spec : forall st sets views excl ts,
-  (forall t, set_ok (sets t) (views t)) ->
-  match first_nonempty views excl ts with
-  | Some t' => exists ds sel, select_rand st sets excl ts = MOk ds 0 sel /\
-                              forall d, In d ds <-> In d (cands excl (views t'))
-  | None => select_rand st sets excl ts = MErr ENoAlive hour
-  end.
-Proof.
-  intros st sets views excl ts Hok. unfold first_nonempty. induction ts as [|t ts IH]; cbn; auto.
-  destruct (cands excl (views t)) as [|x cs] eqn:Ec.
-  - assert (Hg : get_rand (sets t) excl = []).
-    { apply nil_iff. intros d Hin. apply (get_rand_cands _ _ excl d (Hok t)) in Hin. rewrite Ec in Hin. destruct Hin. }
-    rewrite Hg. exact IH.
-  - destruct (get_rand (sets t) excl) as [|y ds] eqn:Eg.
-    + exfalso. assert (In x (get_rand (sets t) excl)) by (apply (get_rand_cands _ _ excl x (Hok t)); rewrite Ec; left; reflexivity).
-      rewrite Eg in H. destruct H.
-    + eexists _, _. split; [reflexivity|]. intros d. rewrite <- Eg; try rewrite <- Ec. apply get_rand_cands. apply Hok.
-Qed.
-
-Lemma chain_selection_types : forall t, selection_types false t = chain t.
-Proof. intros [d v]. destruct d; reflexivity. Qed.
-
-Lemma view_mem_cands : forall d excl v, In d (cands excl v) -> view_mem d (view_drop excl v) = true.
-Proof. intros d excl v H. apply view_mem_in. exact H. Qed.
-
-Lemma C15_select_random_ok_proof :
-  forall (c : cfg) (p0 : gpol) (h : list op) (rq : reqtype) (strict : bool) (excl : option nat) (r : sel_res),
-    c_n c <> O -> g_policy (run c p0 h) = GSet SRandom ->
-    In r (results_of (select c (run c p0 h) rq strict excl)) ->
-    select_ok c (spec_run c p0 h) (key_of rq) strict excl r = true.
-Proof.
-  intros c p0 h rq strict excl r Hn Hp Hr.
-  destruct (run_ok c p0 h) as (Hst & Hpol & Hsets).
-  set (g := run c p0 h) in *. set (s := spec_run c p0 h) in *.
-  rewrite Hp in Hsets. destruct Hsets as (sets & Hs & Hall).
-  assert (Hok : forall t, set_ok (sets t) (ss_views s t)) by (intros t; apply Hall).
-  unfold select_ok. rewrite <- Hpol, Hp.
-  unfold select, select1 in Hr. rewrite Hp, Hs in Hr.
-  destruct (c_n c) as [|n] eqn:En; [congruence|].
-  rewrite !chain_selection_types in Hr.
-  set (t := key_of rq) in *.
-  pose proof (select_rand_spec (g_store g) sets (ss_views s) excl (chain t) Hok) as H1.
-  unfold tried.
-  destruct (first_nonempty (ss_views s) excl (chain t)) as [t1|] eqn:E1.
-  - destruct H1 as (ds & sel & Hsel & Hds). rewrite Hsel in Hr. cbn [results_of] in Hr.
-    apply in_map_iff in Hr. destruct Hr as [d [<- Hd]].
-    assert (Hf : first_nonempty (ss_views s) excl (if strict then chain t else chain t ++ chain (flip_t t)) = Some t1).
-    { destruct strict; auto. unfold first_nonempty in *. rewrite find_app', E1. reflexivity. }
-    rewrite Hf. apply Hds in Hd. rewrite (view_mem_cands _ _ _ Hd). reflexivity.
-  - rewrite H1 in Hr. destruct strict; cbn [negb] in Hr.
-    + rewrite E1. destruct (Nat.eqb (S n) 1) eqn:E1n.
-      * cbn in Hr. destruct Hr as [<-|[]]. cbn. reflexivity.
-      * cbn in Hr. destruct Hr as [<-|[]]. cbn. reflexivity.
-    + pose proof (select_rand_spec (g_store g) sets (ss_views s) excl (chain (flip_t t)) Hok) as H2.
-      assert (Hf : first_nonempty (ss_views s) excl (chain t ++ chain (flip_t t)) = first_nonempty (ss_views s) excl (chain (flip_t t))).
-      { unfold first_nonempty in *. rewrite find_app', E1. reflexivity. }
-      rewrite Hf. rewrite Bool.andb_false_r. rewrite chain_selection_types in Hr.
-      destruct (first_nonempty (ss_views s) excl (chain (flip_t t))) as [t2|] eqn:E2.
-      * destruct H2 as (ds & sel & Hsel & Hds). rewrite Hsel in Hr. cbn [results_of] in Hr.
-        apply in_map_iff in Hr. destruct Hr as [d [<- Hd]].
-        apply Hds in Hd. rewrite (view_mem_cands _ _ _ Hd). reflexivity.
-      * rewrite H2 in Hr. cbn in Hr. destruct Hr as [<-|[]]. reflexivity.
-Qed.
-
-(* ---------- selection: fixed, against the spec checker ---------- *)
-Lemma C15_select_fixed_ok_proof :
-  forall (c : cfg) (p0 : gpol) (h : list op) (rq : reqtype) (strict : bool) (excl : option nat) (i : Z) (r : sel_res),
-    g_policy (run c p0 h) = GFixed i ->
-    In r (results_of (select c (run c p0 h) rq strict excl)) ->
-    select_ok c (spec_run c p0 h) (key_of rq) strict excl r = true.
-Proof.
-  intros c p0 h rq strict excl i r Hp Hr.
-  destruct (run_ok c p0 h) as (_ & Hpol & _).
-  unfold select_ok. rewrite <- Hpol, Hp.
-  unfold select, select1 in Hr. rewrite Hp in Hr.
-  destruct (c_n c) as [|n] eqn:En.
-  - cbn in Hr. destruct Hr as [<-|[]]. reflexivity.
-  - destruct (i <? 0) eqn:E1; cbn [orb] in Hr.
-    + cbn in Hr. destruct Hr as [<-|[]].
-      assert ((0 <=? i) = false) by (apply Z.leb_gt; apply Z.ltb_lt in E1; lia). rewrite H. reflexivity.
-    + destruct (Z.of_nat (S n) <=? i) eqn:E2.
-      * cbn in Hr. destruct Hr as [<-|[]].
-        assert ((i <? Z.of_nat (S n)) = false) by (apply Z.ltb_ge; apply Z.leb_le in E2; lia).
-        rewrite H, Bool.andb_false_r. reflexivity.
-      * cbn in Hr. destruct Hr as [<-|[]].
-        assert ((0 <=? i) = true) by (apply Z.leb_le; apply Z.ltb_ge in E1; lia).
-        assert ((i <? Z.of_nat (S n)) = true) by (apply Z.ltb_lt; apply Z.leb_gt in E2; lia).
-        rewrite H, H0, Nat.eqb_refl. reflexivity.
-Qed.
-
-(* ---------- min policies: the excluded node is never returned by the set (any state) ---------- *)
-Lemma scan_min_not_excl : forall e es acc d l,
-  scan_min (Some e) es acc = (Some d, l) -> fst acc <> Some e -> d <> e.
-Proof.
-  intros e es. induction es as [|[d' l'] es IH]; intros acc d l H Hacc.
-  - cbn in H. destruct acc as [o z]. cbn in *. inversion H; subst. congruence.
-  - cbn in H. destruct (Nat.eqb d' e) eqn:E.
-    + eapply IH; eauto.
-    + destruct (negb (is_some (fst acc)) || (l' <? snd acc)); eapply IH; eauto. cbn. apply Nat.eqb_neq in E. congruence.
-Qed.
-
-Lemma C15_get_min_excluded_proof : forall a e d l, get_min a (Some e) = (Some d, l) -> d <> e.
-Proof.
-  intros a e d l H. unfold get_min in H. destruct (a_best a) as [b|].
-  - cbn in H. destruct (Nat.eqb e b) eqn:E; cbn in H.
-    + eapply scan_min_not_excl; eauto. cbn. discriminate.
-    + inversion H; subst. apply Nat.eqb_neq in E. congruence.
-  - eapply scan_min_not_excl; eauto. cbn. discriminate.
-Qed.
-
-(* ---------- no panic in the removal ---------- *)
-Lemma C15_no_removal_panic_proof : forall c p0 h sets t d i,
-  g_sets (run c p0 h) = Some sets -> a_idx (sets t) d = SAt i -> remove_panics (sets t) i = false.
-Proof.
-  intros c p0 h sets t d i Hs Hi. destruct (run_ok c p0 h) as (_ & _ & Hsets).
-  destruct (g_policy (run c p0 h)); [congruence|].
-  destruct Hsets as (sets' & Hs' & Hall). rewrite Hs in Hs'. inversion Hs'; subst sets'.
-  destruct (Hall t) as [_ [Hok _]]. unfold remove_panics. apply Nat.leb_gt. eapply idx_ok_lt; eauto.
-Qed.
-
-(* ---------- witnesses ---------- *)
-(* the strict reading of "merely better": a tie moves the standing choice *)
-Definition w2_cfg : cfg := {| c_n := 2; c_off := fun _ => 0; c_tol := 30000000 |}.
-Definition w2_hist : list op :=
-  [OLat 1 (DTcp, V4) (Some 20000000, Some 20000000, Some 20000000); ONotify 1 (DTcp, V4) true;
-   OLat 0 (DTcp, V4) (Some 20000000, Some 20000000, Some 20000000); ONotify 0 (DTcp, V4) true].
-Lemma C15_tie_switch_witness_proof :
-  let best h := match g_sets (run w2_cfg (GSet (SMin MLast)) h) with Some s => a_best (s (DTcp, V4)) | None => None end in
-  best (firstn 2 w2_hist) = Some 1%nat /\ best w2_hist = Some 0%nat.
-Proof. vm_compute. auto. Qed.
-
-Lemma C15_nonvacuous_proof :
-  let c := {| c_n := 3; c_off := fun _ => 0; c_tol := 0 |} in
-  let h := [ONotify 1 (DDataUdp, V4) false; ONotify 0 (DDataUdp, V4) false; ONotify 2 (DDataUdp, V4) false;
-            ONotify 0 (DDnsUdp, V4) false; ONotify 2 (DDnsUdp, V4) false] in
-  let rq := {| rq_l4 := UDP; rq_ipv := V4; rq_isdns := false; rq_udpdom := UData |} in
-  g_policy (run c (GSet SRandom) h) = GSet SRandom /\
-  results_of (select c (run c (GSet SRandom) h) rq true (Some 1%nat)) = [ROk 0 0; ROk 2 0]
-  /\ results_of (select c (run c (GSet SRandom) h) rq true None) = [ROk 1 0]
-  /\ results_of (select c (run c (GSet SRandom) (h ++ [OPolicy (GFixed 2)])) rq true (Some 2%nat)) = [ROk 2 0].
-Proof. vm_compute. auto. Qed.
+  intros c st t a d alive Hmin. unfold notify, nb_kept. rewrite Hmin.
+  destruct (snapshot_latency st d t (a_policy a)) as [raw|] eqn:Eh;
+  destruct alive; destruct (a_idx a d) as [i| |] eqn:Ei;
+  try (destruct (remove_at_proj a d i) as (R1 & R2 & R3 & R4));
+  (destruct (a_best a) as [b|] eqn:Eb;
+   [destruct (Nat.eqb b d) eqn:Ebd; [apply Nat.eqb_eq in Ebd; subst b|apply Nat.eqb_neq in Ebd]|]);
+  nb_norm; rewrite ?R3, ?R4, ?Eb; nb_norm; rewrite ?Nat.eqb_refl; nb_norm;
+  try (destruct (tol_switch (c_tol c) (raw + c_off c d) (a_best_lat a)) eqn:Et); nb_norm;
+  try (destruct (a_best_lat a <? raw + c_off c d) eqn:Elt; [apply Z.ltb_lt in Elt|apply Z.ltb_ge in Elt]); nb_norm;
+  try (assert (Hbd : Nat.eqb b d = false) by (apply Nat.eqb_neq; exact Ebd); rewrite ?Hbd); nb_norm;
+  first
+  [ solve [left; repeat split; auto; congruence]
+  | solve [right; left; repeat split; auto; congruence]
+  | solve [right; right; left; exists raw; repeat split; auto; congruence]
+  | solve [right; right; right; left; exists raw; repeat split; auto; congruence]
+  | solve [right; right; right; right; left; exists raw; repeat split; auto; try congruence; try lia]
+  | solve [right; right; right; right; right; left; exists raw; eexists; repeat split; try reflexivity; auto]
+  | solve [right; right; right; right; right; right; left; repeat split; auto; first [left; congruence | right; intros; congruence]]
+  | solve [right; right; right; right; right; right; right; eexists; repeat split; try reflexivity; auto]
+  | idtac ].
+  all: idtac "REMAIN".
+  all: try (Show).
+Admitted.
